@@ -380,3 +380,21 @@ Fixpoint s_read_exact (fuel : nat) (into : bool) (caps : list Z) (n : Z) (s : st
 Definition read_exact (into : bool) (caps : list Z) (n : Z) (s : stream) : list Z * stream :=
   s_read_exact (S (Z.to_nat n)) into caps n s.
 Definition is_read_call (o : sop) : bool := match o with ORead _ | OReadInto _ => true | _ => false end.
+
+(* ------------------------------------------------------------------------------------ *)
+(* the point format a header shows                                                       *)
+(* ------------------------------------------------------------------------------------ *)
+(* LasHeader.read_from builds header.point_format - the dimensions of the records, their names, types and sizes - from the
+   point format id, the record size and the FIRST Extra Bytes record among the VLRs (user id "LASF_Spec", record id 4, a
+   whole number of 192-byte descriptors: what laspy parses into an ExtraBytesVlr); bytes of the record that nothing
+   describes become one opaque dimension. It is decided before the EVLRs are looked at, and nothing that loads EVLRs later
+   (LasHeader.read_evlrs, LasReader.read, LasMMAP) touches it: the shapes gen_format_* of Gen/GenAccess.v. A record of
+   that type stored among the EVLRs (LAS 1.4 allows it) is an EVLR like any other. *)
+Definition LASF_SPEC : list Z := [76; 65; 83; 70; 95; 83; 112; 101; 99].      (* "LASF_Spec" *)
+Definition EXTRA_BYTES_RECORD_ID : Z := 4.
+Definition EXTRA_BYTES_DESCRIPTOR : Z := 192.
+Definition is_extra_bytes_record (v : vlr) : bool :=
+  list_eqb (v_uid v) LASF_SPEC && (v_rid v =? EXTRA_BYTES_RECORD_ID) && (len (v_data v) mod EXTRA_BYTES_DESCRIPTOR =? 0).
+(* what the point format is a function of: (format id, record size, the descriptors of the extra dimensions if any) *)
+Definition format_of (rh : rheader) : Z * Z * option (list Z) :=
+  (rh_fmt rh, rh_psize rh, option_map v_data (find is_extra_bytes_record (rh_vlrs rh))).
